@@ -58,6 +58,11 @@ Definition graphs_of (s : store) : list graph :=
 Definition digest_state (lk : query -> lopts -> graph -> outcome) (qs : list query) (los : list lopts) (s : store) : N :=
   fold_left (fun h g => digest_lookups lk qs los g h) (graphs_of s) 0.
 
+(* the same over the graph objects that hold at least one triple (used for the option products of C09) *)
+Definition digest_state_ne (lk : query -> lopts -> graph -> outcome) (qs : list query) (los : list lopts) (s : store) : N :=
+  fold_left (fun h g => digest_lookups lk qs los g h)
+            (filter (fun g => match idx g with [] => false | _ => true end) (graphs_of s)) 0.
+
 (* ---------------------------------------------------------------- observations of the store itself *)
 Fixpoint ninsert (x : N) (l : list N) : list N :=
   match l with [] => [x] | y :: r => if N.leb x y then x :: y :: r else y :: ninsert x r end.
@@ -123,7 +128,7 @@ Definition compare_step (c : cfg) (U : list triple) (P : pools) (nn : nat) (r : 
      (if N.eqb (digest_state lookup (all_queries P) [default_lo] s) (o_c02 o) then [] else [4])
    else []) ++
   (if c_c09 c then
-     (if forallb (fun e => match e with (qs, los, d) => N.eqb (digest_state lookup qs los s) d end) (o_c09 o)
+     (if forallb (fun e => match e with (qs, los, d) => N.eqb (digest_state_ne lookup qs los s) d end) (o_c09 o)
       then [] else [5])
    else []).
 
@@ -155,6 +160,9 @@ Definition state_after (U : list triple) (xs : list xop) : store := run (map (to
 
 Definition detail (lk : query -> lopts -> graph -> outcome) (qs : list query) (los : list lopts) (s : store) : list N :=
   flat_map (fun g => flat_map (fun q => map (fun lo => dlist 0 (enc_outcome (lk q lo g))) los) qs) (graphs_of s).
+Definition detail_ne (lk : query -> lopts -> graph -> outcome) (qs : list query) (los : list lopts) (s : store) : list N :=
+  flat_map (fun g => flat_map (fun q => map (fun lo => dlist 0 (enc_outcome (lk q lo g))) los) qs)
+           (filter (fun g => match idx g with [] => false | _ => true end) (graphs_of s)).
 
 (* the three reference behaviours used to classify a disagreement *)
 Definition lk_current := lookup_v current.
